@@ -167,9 +167,9 @@ def events_for(root_is_loader, deep=False):
     if not deep:
         for fn in (('ctor', 'mctor') if root_is_loader else ('repr', 'mrepr')) + ('impl', 'path'):
             ev += [('mod', fn, None), ('mod', fn, 'A')]
-        ev += [('yobj', 0), ('yobj', 1), ('yobj', 2)]
+        ev += [('yobj', 0), ('yobj', 1), ('yobj', 2), ('yobjsub', 0), ('yobjsub', 1)]
     else:
-        ev += [('yobj', 1)]
+        ev += [('yobj', 1), ('yobjsub', 1)]
     return ev
 
 
@@ -203,6 +203,8 @@ class World:
             return e[2] is None or 'A' in self.cls
         if k == 'yobj':
             return e[1] == 0 or ('A' in self.cls and (e[1] != 2 or 'B' in self.cls))
+        if k == 'yobjsub':       # subclass of a tagged YAMLObject class that does not declare a tag of its own: registers nothing
+            return any('yaml_tag' in y.__dict__ for y in self.yobjs) and (e[1] == 0 or 'B' in self.cls)
         return True
 
     def apply(self, e):
@@ -283,6 +285,13 @@ class World:
                 yaml.add_path_resolver('!p%d' % i, ['k'], str, **kw)
                 for L in loaders: m.add(L, 'yaml_path_resolvers', 'path-k', '!p%d' % i)
                 for D in dumpers: m.add(D, 'yaml_path_resolvers', 'path-k', '!p%d' % i)
+        elif k == 'yobjsub':
+            ns = {}
+            if e[1] == 1:
+                ns['yaml_loader' if self.is_loader else 'yaml_dumper'] = self.cls['B']
+            base = [y for y in self.yobjs if 'yaml_tag' in y.__dict__][-1]
+            Y = type('YObjSub%d' % i, (base,), ns)
+            self.yobjs.append(Y)          # probed like the others; the model registers nothing for it
         elif k == 'yobj':
             v = e[1]
             ns = {'yaml_tag': '!yobj', 'a': 1, '__init__': _yobj_init, 'from_yaml': classmethod(lambda cls, loader, node: cls())}
